@@ -56,7 +56,15 @@ class DPPerLayerOptimizer(DPOptimizer):
         )
 
     def clip_and_accumulate(self):
+        # max_grad_norm, the joint norm of the per-layer bounds that scales the noise,
+        # may have been changed since construction (e.g. by a clipping scheduler):
+        # the per-layer bounds follow it
+        scale = (
+            self.max_grad_norm
+            / torch.norm(torch.Tensor(self.max_grad_norms), p=2).item()
+        )
         for p, max_grad_norm in zip(self.params, self.max_grad_norms):
+            max_grad_norm = max_grad_norm * scale
             _check_processed_flag(p.grad_sample)
 
             grad_sample = self._get_flat_grad_sample(p)
